@@ -204,7 +204,13 @@ def lib_dataframe(ev, a, k, n, mod):
             elif isinstance(index, SymRange):
                 nrows = index.n
             return DFV(nrows, {kk: as_sym(vv.items[0]) for kk, vv in data.d.items()}, index)
-        if isinstance(data, DictV) and data.d and all(isinstance(kk, str) for kk in data.d) and all(is_sym(vv) and not isinstance(vv, bool) for vv in data.d.values()):
+        def _col(vv):
+            # a whole-column expression, or a one-element sequence standing for "one value per row" of a summarised sequence
+            if isinstance(vv, Tup) and len(vv.items) == 1 and is_sym(vv.items[0]) and not isinstance(vv.items[0], bool):
+                return vv.items[0]
+            return vv
+        if isinstance(data, DictV) and data.d and all(isinstance(kk, str) for kk in data.d) and all(is_sym(_col(vv)) and not isinstance(_col(vv), bool) for vv in data.d.values()):
+            data = DictV({kk: _col(vv) for kk, vv in data.d.items()})
             # {"col": <column vector>, ...}: one whole-column expression each
             nrows = sp.Symbol("NSEQ", positive=True, integer=True)
             if isinstance(index, RangeV):
